@@ -40,6 +40,8 @@ enum Inner {
     NotNullable,
     #[error("abort")]
     Aborted,
+    #[error("an operator of the query panicked")]
+    Panicked,
 }
 
 impl From<Inner> for Error {
@@ -90,5 +92,8 @@ impl Error {
     }
     pub fn aborted() -> Self {
         Inner::Aborted.into()
+    }
+    pub fn panicked() -> Self {
+        Inner::Panicked.into()
     }
 }
